@@ -175,23 +175,10 @@ func getPayeeOrDescription(tx *ast.Transaction) string {
 	return tx.Description
 }
 
-func estimatePayeeRange(tx *ast.Transaction, payee string) ast.Range {
-	startCol := tx.Date.Range.End.Column + 1
-	if tx.Status != ast.StatusNone {
-		startCol += 2
-	}
-
-	payeeLen := lsputil.UTF16Len(payee)
-	return ast.Range{
-		Start: ast.Position{
-			Line:   tx.Date.Range.Start.Line,
-			Column: startCol,
-		},
-		End: ast.Position{
-			Line:   tx.Date.Range.Start.Line,
-			Column: startCol + payeeLen,
-		},
-	}
+// estimatePayeeRange returns the range of the payee (or description) on the
+// transaction header as recorded by the parser.
+func estimatePayeeRange(tx *ast.Transaction, _ string) ast.Range {
+	return tx.PayeeRange
 }
 
 func buildHoverContentWithTransactions(element *hoverElement, balances analyzer.AccountBalances, transactions []ast.Transaction) string {
